@@ -197,10 +197,16 @@ def loadFrom {M : Type} (loadBytes : Blob → M) (s : Source) (zipFilename : Opt
 
 /-! ### auxiliary files -/
 
-/-- regular files on disk, keyed by the path handed to `open` -/
-abbrev Disk := List (Name × Blob)
+/-- the disk as `os.path.isfile`/`open` see it: the regular files by absolute normalised path, and
+    the working directory relative paths are resolved against (lexically: no symlinks) -/
+structure Disk where
+  cwd : Name
+  files : List (Name × Blob)
+deriving Repr
 
-def Disk.file (fs : Disk) (p : Name) : Option Blob := (fs.find? (fun e => e.1 == p)).map (·.2)
+def Disk.file (fs : Disk) (p : Name) : Option Blob :=
+  let q := if startsWith p [sep] then p else normpath (join fs.cwd p)
+  (fs.files.find? (fun e => e.1 == q)).map (·.2)
 
 /-- `self.getFileData(fname)` -/
 def getFileData (fs : Disk) (loader : Name → Option Blob) (r : Resolver) (fname : Name) : Except Err Blob :=
